@@ -256,14 +256,32 @@ func (d *decodingReader) decode(f frame.Frame) error {
 		}
 	}
 	sum := d.crc.Sum32()
+	start := d.nread.n
 	var decoded uint32
 	if err := d.dec.Decode(&decoded); err != nil {
 		return err
+	}
+	// The checksum message is not itself covered by the checksum. It
+	// holds a single uint32, so its size follows from its value: a
+	// message of any other size has a damaged length prefix, and has
+	// swallowed bytes of whatever follows it in the stream.
+	if d.nread.n-start != checksumMessageSize(decoded) {
+		return errors.E(errors.Integrity, errors.New("corrupt stream: damaged checksum message"))
 	}
 	if sum != decoded {
 		return errors.E(errors.Integrity, fmt.Errorf("computed checksum %x but expected checksum %x", sum, decoded))
 	}
 	return nil
+}
+
+// checksumMessageSize returns the size of the gob message that
+// carries the checksum v at the end of a batch.
+func checksumMessageSize(v uint32) int64 {
+	var c byteCounter
+	if err := gob.NewEncoder(&c).Encode(v); err != nil {
+		panic(err)
+	}
+	return c.n
 }
 
 // readerByteReader is used to provide an (invalid) implementation of
